@@ -116,7 +116,7 @@ fault("C07.scan-all-terminals", "C07", P, "        actions = head.state.actions\
 fault("C07.prefer-first", "C07", P, "        pref_tokens = [x for x in tokens if x.symbol.prefer]\n        if pref_tokens:",
       "        pref_tokens = [x for x in tokens if x.symbol.prefer][:1]\n        if pref_tokens:", "R07.longest-prefer")
 fault("C07.longest-ge", "C07", P, "tokens = [x for x in tokens if len(x.value) == max_len]", "tokens = [x for x in tokens if len(x.value) >= max_len - 1]", "R07.longest-prefer")
-fault("C07.card-first", "C07", P, "        elif len(tokens) == 1:\n            return tokens[0]\n        else:\n            raise DisambiguationError(Location(head), tokens)",
+fault("C07.card-first", "C07", P, "        elif len(tokens) == 1:\n            return tokens[0]\n        else:\n            raise DisambiguationError(Location(ErrorContext(head)), tokens)",
       "        else:\n            return tokens[0]", "R07.cardinality")
 fault("C07.gate-custom", "C07", P, "        # do lexical disambiguation if it is enabled\n        if self.lexical_disambiguation:\n            tokens = self._lexical_disambiguation(tokens)\n",
       "        # do lexical disambiguation if it is enabled\n        if self.lexical_disambiguation and not self.custom_token_recognition:\n            tokens = self._lexical_disambiguation(tokens)\n", "R07.gate")
@@ -499,3 +499,8 @@ fault("C01.children-append", "C01", G, "                    new_results = [paren
 fault("C01.one-subfrontier", "C01", G, "            while self._active_heads_per_symbol:\n                _, self._active_heads = self._active_heads_per_symbol.popitem()", "            if self._active_heads_per_symbol:\n                _, self._active_heads = self._active_heads_per_symbol.popitem()", "R01.main-loop")
 fault("C01.record-only-full", "C01", G, "                if node.frontier == head.frontier:\n                    # Cache traversed", "                if update_parent is None and node.frontier == head.frontier:\n                    # Cache traversed", "R02.revisit")
 fault("C01.follow-first-occurrence", "C01", T, "                            additions = True\n                            follow_sets[symbol].update(prod_follow)\n    return follow_sets", "                            additions = True\n                            follow_sets[symbol].update(prod_follow)\n                        break\n    return follow_sets", "R05.nullable-scan")
+
+# ---------------------------------------------------------------- whole-tree benign transformation
+# tools/benign_rename.py renames every function-local variable of the package (368 names) and
+# regenerates the source with ast.unparse; all 20 checks must stay silent on it (run by
+# `pgv.py selfcheck --rename`, part of every thorough run of C15).
